@@ -158,7 +158,8 @@ def _job(job):
                                       "plots_reached": sorted(set(called)),
                                       "where": "".join(__import__("traceback").format_exception(*res.exc_info))[-700:] if res.exit_code and res.exc_info else None}})
                 try:
-                    rec = config_from_fits(path)
+                    import pathlib
+                    rec = config_from_fits(pathlib.Path(path) if seed % 2 else path)      # a str or a path object
                     fc, fr = dict(flatten(run_cfg)), dict(flatten(rec))
                     ang = lambda n: n.split(".")[-1] in ANGLE_FIELDS
                     events.append({"kind": "recon", "ok": True,
